@@ -1774,3 +1774,25 @@ def check_ctors(ck, rule, prog, file_rx, floor=0):
     if floor:
         ck.floor(rule, "constructor fields named after a parameter", n, floor)
     return n
+
+
+def filter_guard_calls(prog, pv, atoms, pred):
+    """calls satisfying `pred` that positively guard the ELEMENTS of an iterator pipeline: for each `filter` / `take_while` /
+    `skip_while`-free `filter` adaptor among the provenance atoms, the predicate closure keeps an element iff that call is true.
+    returns list of (closure body, call terminator)"""
+    out = []
+    for a in atoms:
+        if a[0] != "call" or not re.search(r"::(filter|filter_map|find)$", a[1]) or a[3] not in prog.bodies:
+            continue
+        fb = prog.bodies[a[3]]
+        t = fb.blocks[a[4]].term
+        if t.k != "call" or len(t.args) < 2:
+            continue
+        cb = prog.bodies.get(pv.closure_of_operand(fb, t.args[1]) or "")
+        if cb is None or cb.kind != "Closure":
+            continue
+        pvc = Prov(prog, inline=False, bind_closures=False)
+        pol, ct = bool_polarity(cb, pvc, pred)
+        if pol == 1 and ct is not None:
+            out.append((cb, ct))
+    return out
